@@ -43,6 +43,15 @@ func VerifKnownPaths() map[string]string {
 	return m
 }
 
+// VerifKnownPathRegexps returns the regexp mapping table as (expr, repl) pairs, in order.
+func VerifKnownPathRegexps() [][2]string {
+	out := make([][2]string, 0, len(knownPathRegexpMap))
+	for _, r := range knownPathRegexpMap {
+		out = append(out, [2]string{r.expr.String(), r.repl})
+	}
+	return out
+}
+
 // VerifRegistry is a snapshot of the level registry tables.
 type VerifRegistry struct {
 	all      []Level
